@@ -593,7 +593,7 @@ def combine_lists(left, right, engine):
 
 
 @specs.parameter('left', yaqltypes.Sequence())
-@specs.parameter('right', int)
+@specs.parameter('right', yaqltypes.Integer())
 @specs.name('#operator_*')
 def list_by_int(left, right, engine):
     """:yaql:operator *
@@ -616,7 +616,7 @@ def list_by_int(left, right, engine):
     return left * right
 
 
-@specs.parameter('left', int)
+@specs.parameter('left', yaqltypes.Integer())
 @specs.parameter('right', yaqltypes.Sequence())
 @specs.name('#operator_*')
 def int_by_list(left, right, engine):
